@@ -217,6 +217,11 @@ def c31_PROPOSED_PATCH_FILE():
     _overlay_patch_file("c31_keep_unpicklable_exceptions.diff", ["pynguin.testcase.subprocess_executor"])
 
 
+def c31_PROPOSED_PATCH_FILE_baditems_raises():
+    """tools/proposed_patches/c31_baditems_raises_keep_exceptions.diff (exception constructor raising on unpickle)."""
+    _overlay_patch_file("c31_baditems_raises_keep_exceptions.diff", ["pynguin.testcase.subprocess_executor"])
+
+
 # =============================================================================== C31
 def _patch_fix_result(extra):
     from pynguin.testcase.subprocess_executor import SubprocessTestCaseExecutor as S
@@ -367,6 +372,25 @@ def c32_configured_bound_ignored():
     ex.TestCaseExecutor.__init__ = __init__
 
 
+def c32_second_join_uses_per_statement_time():
+    """The second join (waiting for the abandoned thread) uses test_execution_time_per_statement instead of the maximum."""
+    import inspect
+    import textwrap
+
+    import pynguin.testcase.execution as ex
+
+    src = textwrap.dedent(inspect.getsource(ex.TestCaseExecutor.execute))
+    old = "thread.join(timeout=self._maximum_test_execution_timeout)"
+    assert old in src
+    src = src.replace(old, "thread.join(timeout=self._test_execution_time_per_statement)")
+    ns = {}
+    exec(compile(src, ex.__file__, "exec"), ex.__dict__, ns)  # noqa: S102
+    ex.TestCaseExecutor.execute = ns["execute"]
+
+
+C32_VARIANT = {"second_join_uses_per_statement_time": 6}
+
+
 # ===============================================================================
 def _child(which, name):
     g = globals()
@@ -382,14 +406,14 @@ def _child(which, name):
         elif which == "c31":
             import checks.c31_inproc_vs_subprocess as chk
 
-            mods = ["c31_exc", "c31_acc"] if "exception" in name.lower() or name in ("none", "PROPOSED_PATCH_FILE") else ["c31_acc", "c31_tri"]
+            mods = ["c31_exc", "c31_acc"] if "exception" in name.lower() or name in ("none", "PROPOSED_PATCH_FILE", "PROPOSED_PATCH_FILE_baditems_raises") else ["c31_acc", "c31_tri"]
             # one SUT module per process (the subprocess executor looks at sys.meta_path[0]): second module in a grandchild
             chk.run_chunk({"name": "directed", "module": mods[0]}, ctx)
         else:
             import checks.c32_timeouts as chk
 
             # (one chunk per process: a second setup_sut would find the module already imported with the first tracer)
-            chk.run_chunk({"name": "directed", "variant": 0}, ctx)
+            chk.run_chunk({"name": "directed", "variant": C32_VARIANT.get(name, 0)}, ctx)
     finally:
         shutil.rmtree(ctx.scratch, ignore_errors=True)
     keys = ctx.extra.get("witness_counts", {})
